@@ -358,6 +358,31 @@ fn main() {
             }
         }
 
+        // ---- f32 elements (seed C12-6: a descending comparator specialised for f32 alone put its nulls first): the same series as
+        // Vec<f32> (values that survive the narrowing exactly), quantiles on both sides of 0.5, descending rank - against the f64 model
+        {
+            let xf = s.f();
+            if xf.iter().all(|x| x.is_nan() || ((*x as f32) as f64) == *x) && (full || rng.chance(1, 2)) {
+                let x32: Vec<f32> = xf.iter().map(|x| *x as f32).collect();
+                for (q, qtag) in [(0.25, "q1"), (0.75, "q3"), (1.0, "one")] {
+                    for m in [0usize, 2] {
+                        let tags = format!("fn=vquantile ty=f32 be=vec len={} nvalid={} firstnull={} {}{} q={} method={} branch={}", len.min(13), n.min(8),
+                            (len > 0 && s.xs[0].is_none()) as u8, s.tags, nt, qtag, ["linear", "lower", "higher", "midpoint"][m], if q <= 0.5 { "asc" } else { "desc" });
+                        em.case("custom:quant", &tags, &format!("fn=vquantile ty=f32 be=vec q={:?} method={} xs={:?}", q, m, x32),
+                            || format!("(run_quantx_f {} {} {})", coq_f64(q), m, coq_series(s, Ty::F)),
+                            || quant(&x32, q, m));
+                    }
+                }
+                for (pct, rev) in [(false, true), (true, true), (false, false)] {
+                    let tags = format!("fn=vrank ty=f32 be=vec len={} nvalid={} firstnull={} {}{} pct={} rev={} out=f64", len.min(13), n.min(8),
+                        (len > 0 && s.xs[0].is_none()) as u8, s.tags, nt, pct, rev);
+                    em.case("float:1e-12", &tags, &format!("fn=vrank ty=f32 be=vec pct={} rev={} out=f64 xs={:?}", pct, rev, x32),
+                        || format!("(run_rank_f {} {} {})", coq_bool(pct), coq_bool(rev), coq_series(s, Ty::F)),
+                        || rank(&x32, pct, rev, false));
+                }
+            }
+        }
+
         // ---- vrank -----------------------------------------------------------------------------
         for pct in [false, true] {
             for rev in [false, true] {
